@@ -161,6 +161,30 @@ def run(ctx):
         elif t2.results and any(int(r["od"]) for r in t2.results[-2:]):
             ctx.violation("C08 fails on the real code (variable-rate engine): frames delivered after the drain had returned nothing twice (%s)" % cr.create_line(j["cfg"]),
                           {"cfg": j["cfg"], "ops": ops[:4] + ["..."] + ops[-4:]})
+    # ---- soxr_create itself returns, whatever the two rates are: the whole double axis incl. 0, denormals, a quotient that overflows or
+    #      underflows, infinities and NaN, for the constant-rate recipes and for the variable-rate engine (any verdict is fine here: C09
+    #      decides which ones must be refused; this is the watchdog)
+    cjobs = []
+    special = [("inf", "1"), ("1", "inf"), ("nan", "1"), ("1", "nan"), ("1e300", "1e-300"), ("1e-300", "1e300"), ("0", "1"), ("1", "0"),
+               ("-1", "1"), ("4.9e-324", "1"), ("1", "4.9e-324"), ("1.7976931348623157e308", "1"), ("1", "1.7976931348623157e308"),
+               ("2147483648", "1"), ("1073741824", "1"), ("1073741823.9", "1"), ("4294967296", "1"), ("1e19", "1"), ("inf", "inf")]
+    for i in range(60 if ctx.quick else 1500):
+        if i < 2 * len(special):
+            ir, orr = special[i % len(special)]
+        else:
+            ir, orr = repr(2.0 ** ctx.rng.uniform(-1074, 1023)), repr(2.0 ** ctx.rng.uniform(-1074, 1023))
+        vr = (i // len(special)) % 2 == 1 if i < 2 * len(special) else ctx.rng.chance(.5)
+        cjobs.append({"ir": ir, "or": orr, "recipe": 4 if vr else ctx.rng.choice([0, 1, 4, 6]), "qflags": 32 if vr else ctx.rng.choice([0, 8])})
+
+    def cwork(cfg):
+        return cfg, cr.run_trace(exe, [cr.create_line(cfg)], {}, timeout=20)
+    for cfg, t2 in cr.pmap(cwork, cjobs):
+        ctx.count("creates_watched")
+        ctx.hist("create_outcome", "hang" if t2.rc == "timeout" else "created" if t2.created else "refused" if t2.rc == 0 else "crash")
+        if t2.rc == "timeout":
+            ctx.violation("C08 fails on the real code: soxr_create does not return within 20 s (%s)" % cr.create_line(cfg), {"cfg": cfg, "ops": [cr.create_line(cfg)]})
+        elif t2.rc != 0:
+            ctx.violation("C08: soxr_create does not return normally: harness exit %s: %s (%s)" % (t2.rc, t2.err[-300:], cr.create_line(cfg)), {"cfg": cfg, "ops": [cr.create_line(cfg)]})
     worst = 0
     for job, ops, tr, bad, info in res:
         ctx.hist("dist_style", job["style"])
